@@ -22,7 +22,7 @@ import common
 import initbuild as ib
 
 ID = "C05"
-TABLES = ["frozenExcSetNames", "frozenExcDelNames", "hashCacheField"]
+TABLES = ["frozenExcSetNames", "frozenExcDelNames", "hashCacheField", "fn_frozen_setattrs", "fn_frozen_delattrs"]
 PARALLEL = True
 EXHAUSTIVE = {"quick": False, "thorough": False}
 BUDGET_S = {"quick": 30, "thorough": 400}
